@@ -87,6 +87,19 @@ crate::fs_harness!(c09_fail_bad_tag @ 64 => { corrupt_no_leak::<E2C, 64, 53>() }
 
 /// (ii) I/O failure while reading the file (the file ends before the length its
 /// metadata reported): `load_mem` fails, frees the block exactly once.
+crate::fs_harness!(c09_fail_read_io @ 64 => {
+    let (_x, path) = file_of::<U32>();
+    #[cfg(kani)]
+    unsafe { FILE_FAIL_READ = true; }
+    let r = <u32>::load_mem(&path);
+    let failed = r.is_err();
+    match r { Ok(c) => { core::mem::forget(c); } Err(e) => { core::mem::forget(e); } }
+    #[cfg(kani)]
+    unsafe {
+        assert!(failed, "C09: an unreadable file is refused");
+        assert!(FREED == 1, "C09: a failed load must release the backing region exactly once (0 = leak, 2 = double free)");
+    }
+});
 crate::fs_harness!(c09_fail_read_error @ 64 => {
     let (_x, path) = file_of::<U32>();
     #[cfg(kani)]
